@@ -40,6 +40,11 @@ def _one(pid, path):
             # answers are a pass or an explicit refusal (exit 2) — never a VIOLATION
             ok = r.returncode in (0, 2) and "VIOLATION" not in out
             return (name, expect, "ok" if ok else "FALSE-ALARM(rc=%d)" % r.returncode, "" if ok else out[-1500:])
+        if expect.startswith("clears="):
+            # a repaired variant of a recorded known finding: the check must pass AND the finding's line must be gone
+            rule = expect.split("=", 1)[1]
+            ok = r.returncode == 0 and "VIOLATION" not in out and not any("KNOWN-FINDING" in l and ("rule=%s " % rule) in l for l in out.splitlines())
+            return (name, expect, "ok" if ok else "NOT-CLEARED(rc=%d)" % r.returncode, "" if ok else out[-1500:])
         if expect == "silent":
             ok = r.returncode == 0 and "VIOLATION" not in out
             return (name, expect, "ok" if ok else "FALSE-ALARM(rc=%d)" % r.returncode, "" if ok else out[-1500:])
